@@ -34,6 +34,14 @@ RULE = ("a case = (role, failByDrop, echoCloseCodeReason, closeHandshakeTimeout,
         "timeout (openHandshakeTimeout in {0,1,2}), peer octets buffered meanwhile, delivery of the endpoint's own drop, local "
         "sendClose/sendMessage and late timers: ALL sequences of length <=3 (quick) / <=4 plus length 5 over 6 letters (thorough) "
         "after the request over an 11-letter server alphabet and a 9-letter client alphabet x 6 configurations, random beyond. "
+        "APPLICATION ACTS INSIDE onClose (all families): from within the close notification it calls sendMessage / sendClose / "
+        "sendPing+sendPong / sendPreparedMessage / the streaming API / all of them, or raises - rotated over (sequence, "
+        "configuration) in the exhaustive part, random beyond; on paths where the peer/network lost the transport as well as after "
+        "the endpoint's own drop. LIBRARY-PRODUCED CLOSE REASONS: with failByDrop off (and on) the library itself fails the "
+        "connection with a reason text it derives (a) from the exception a client's onConnect() raised, with texts of every length "
+        "class (<=122, 123, 124, 125, 126, 500 octets, 2/3/4-byte code points at every alignment of the cut) and (b) from a frame "
+        "that does not decompress under a negotiated permessage-deflate (>123 octets): 860 enumerated cases per framework + ~12% "
+        "of the random cases. "
         "Non-trivial = the connection was OPEN and the onClose arguments were judged, or a pending application decision was "
         "delivered under the monitors; distinct = hash of (framework, NVX flag, whole case).")
 ASSUMPTIONS = [
@@ -44,7 +52,9 @@ ASSUMPTIONS = [
     "grey: after a sync=True send (testing facility) the library's send queue may still hold our close frame when the peer's close arrives; wasClean=True without a written close frame is then not asserted",
     "when several valid peer close frames were delivered the reported code/reason may be that of any of them",
     "bounded closure is evaluated with the peer silent from the end of the sequence on, deadline t0 + sum(applicable timeouts) + 1 s; closeHandshakeTimeout applies unless a valid peer close frame preceded ours, serverConnectionDropTimeout applies to a client once any peer close frame was delivered; a timeout configured 0 makes the case vacuous",
-    "only control of the closing machinery is judged here: auto-ping, PMCE, proxies and TLS are not driven",
+    "only control of the closing machinery is judged here: auto-ping, proxies and TLS are not driven; permessage-deflate is negotiated only to make the library produce its long 'could not decompress' failure reason",
+    "reading of 'only moves forward ... closed' + 'close notification fires (after the transport is gone) and after it nothing further is written': when onClose runs the connection is CLOSED (state as the application sees it inside onClose), a send API called from inside onClose makes no transport.write() call and no state transition, and after connection-lost the is_closed future is resolved and state is CLOSED even if onClose raised (the exception itself may reach the framework)",
+    "the wire clause on close frames (payload <= 125, reason <= 123 octets of valid UTF-8, legal code) is asserted on every close frame regardless of who produced the reason (sendClose argument, echo of the peer's reason, text generated by the library)",
     "asynchronous opening handshake: only the documented asynchronous hooks are driven (server onConnect() 'can also return a Deferred/Future', client onConnecting() 'or a future which resolves to one'); the client's onConnect() is documented to return None and is left synchronous",
     "grey: a connection that never became OPEN and gets no onClose at all is not flagged in the asynchronous-handshake family (on the unchanged tree onClose(False, 1006, ..) is always delivered; a second onClose, onClose before connection-lost and anything delivered/written after it ARE flagged); which HTTP response a denied or timed-out handshake gets, the text of the unclean reason and whether a decision that arrives after a LOCAL drop (timeout) but before connection-lost still writes to the aborting transport are left open",
     "a peer close frame fed while the server's onConnect() result is pending counts as received (it is buffered and processed when the handshake completes); octets fed before the handshake request/response do not",
@@ -55,6 +65,11 @@ DECIDING = {
     "frames_parsed": 1000, "bounded_cht_evaluated": 50, "bounded_sdt_evaluated": 50, "bounded_closed_in_time": 50,
     "wasclean_true_checked": 50, "wasclean_false_checked": 50, "wasclean_true_code_reason_matched": 50,
     "close_reason_near_limit_checked": 20, "roles_fw": 4,
+    "lib_reason_close_frames_checked": 200,     # close frames whose reason text the LIBRARY produced (failed connection), re-parsed
+    "lib_reason_at_limit_checked": 100,         # ... of which the (truncated) reason is >= 120 octets
+    "inclose_actions": 5000,                    # send APIs called by the application from INSIDE onClose, transport watched
+    "inclose_raised": 500,                      # onClose raising: state CLOSED and is_closed resolved judged afterwards
+    "state_inside_onclose_checked": 1000, "is_closed_checked": 1000,
     # asynchronous opening handshake: pending application decisions delivered ...
     "async_resolved_while_connecting": 2000,     # ... before connection loss and before the opening-handshake timeout
     "async_resolved_after_timeout": 200,        # ... after the opening-handshake timeout dropped the connection (connection-lost not yet delivered)
@@ -72,6 +87,10 @@ ALPHA12 = [
 ALPHA7 = [["close", 3000, "mb3@122"], ["prepared"], ["pclose", "v3000"], ["pviol", "rsv"], ["tick"], ["fin"], ["pdata", "bin"]]
 
 
+# what the application does from INSIDE onClose (None = passive)
+INCLOSE = [None, "msg", "close", "all", None, "raise", "ping", "prepared", "stream"]
+
+
 def small_configs():
     out = []
     for fbd in (False, True):
@@ -85,11 +104,14 @@ def small_configs():
 
 def exhaustive_cases(alpha, maxlen, minlen=1):
     cfgs = small_configs()
+    k = 0
     for n in range(minlen, maxlen + 1):
         for seq in itertools.product(range(len(alpha)), repeat=n):
-            for cfg in cfgs:
+            k += 1
+            for j, cfg in enumerate(cfgs):
                 c = dict(cfg)
-                c.update(start="open", seg="whole", fc=bool(n & 1), react=None, events=[alpha[i] for i in seq])
+                c.update(start="open", seg="whole", fc=bool(n & 1), react=None, events=[alpha[i] for i in seq],
+                         inclose=INCLOSE[(k * 5 + j) % len(INCLOSE)])
                 yield c
 
 
@@ -124,6 +146,35 @@ def async_cases(tier):
         yield from _async_enum("client", ASYNC_CLI6, (5,), [], ("req", "exc"))
 
 
+def libreason_cases():
+    """the library itself fails the connection (failByDrop off and on) with a reason text IT produces, of every length class"""
+    from vf import c05_engine as E
+
+    tails = [[], [["pclose", "v1000"]], [["tick"]], [["pdrop", False]], [["close", 1000, "a"], ["fin"]]]
+    k = 0
+    for key in E.REASONS:
+        if key == "none":
+            continue
+        for fbd in (False, True):
+            for cht in (0, 2):
+                for tail in tails:
+                    k += 1
+                    yield {"role": "client", "fbd": fbd, "echo": False, "cht": cht, "sdt": 1, "start": "open", "seg": "whole",
+                           "fc": bool(k & 1), "react": None, "inclose": INCLOSE[k % len(INCLOSE)], "onc_raise": key,
+                           "events": [list(e) for e in tail]}
+    for role in ("server", "client"):
+        for fbd in (False, True):
+            for echo in (False, True):
+                for cht in (0, 2):
+                    for pre in ([], [["msg", "text"]], [["pdata", "text"]], [["pdata", "fragstart"]]):
+                        for tail in tails:
+                            k += 1
+                            yield {"role": role, "fbd": fbd, "echo": echo, "cht": cht, "sdt": 1 if role == "client" else 0,
+                                   "start": "open", "seg": ("whole", "bytewise", "split2")[k % 3], "fc": bool(k & 1), "react": None,
+                                   "inclose": INCLOSE[k % len(INCLOSE)], "pmce": True,
+                                   "events": [list(e) for e in pre] + [["pviol", "badz"]] + [list(e) for e in tail]}
+
+
 def gen_async_case(rng):
     role = rng.choice(["server", "server", "client"])
     kinds = ["none", "proto", "tuple", "tuple0", "deny", "exc"] if role == "server" else ["none", "req", "exc"]
@@ -131,7 +182,7 @@ def gen_async_case(rng):
          "sdt": rng.choice([0, 1, 2, 5]) if role == "client" else 0, "start": "connecting",
          "async": "onconnect" if role == "server" else "onconnecting", "oht": rng.choice([0, 1, 2]), "late": rng.choice(kinds),
          "seg": _w(rng, [(6, "whole"), (2, "bytewise"), (2, "split2")]), "fc": rng.random() < 0.5,
-         "react": _w(rng, [(8, None), (1, "close"), (1, "msg"), (1, "prepared")])}
+         "react": _w(rng, [(8, None), (1, "close"), (1, "msg"), (1, "prepared")]), "inclose": rng.choice(INCLOSE)}
     ev = []
     for _ in range(rng.randint(3, 9)):
         x = rng.random()
@@ -186,7 +237,7 @@ def gen_event(rng):
     if kind == "pdata":
         return ["pdata", rng.choice(["text", "bin", "fragstart", "cont", "badutf8"])]
     if kind == "pviol":
-        return ["pviol", rng.choice(["opcode", "rsv", "mask", "fragctl", "bigping", "ctlopcode"])]
+        return ["pviol", rng.choice(["opcode", "rsv", "mask", "fragctl", "bigping", "ctlopcode", "badz"])]
     if kind == "pcombo":
         parts = []
         for _ in range(rng.randint(2, 3)):
@@ -205,9 +256,22 @@ def gen_case(rng):
     c = {"role": role, "fbd": rng.random() < 0.5, "echo": rng.random() < 0.5,
          "cht": rng.choice([0, 1, 2, 5]), "sdt": rng.choice([0, 1, 2, 5]) if role == "client" else 0,
          "start": "open", "seg": _w(rng, [(6, "whole"), (2, "bytewise"), (2, "split2")]), "fc": rng.random() < 0.5,
-         "react": _w(rng, [(8, None), (1, "close"), (1, "msg"), (1, "prepared")])}
+         "react": _w(rng, [(8, None), (1, "close"), (1, "msg"), (1, "prepared")]),
+         "inclose": rng.choice(INCLOSE)}
     n = rng.randint(4, 10)
     ev = [gen_event(rng) for _ in range(n)]
+    x = rng.random()
+    if x < 0.06:
+        # the LIBRARY produces the close reason: permessage-deflate negotiated + a frame that does not decompress
+        c["pmce"] = True
+        c["fbd"] = rng.random() < 0.15
+        ev.insert(rng.randint(0, min(3, len(ev))), ["pviol", "badz"])
+    elif x < 0.12 and role == "client":
+        # .. or derives it from the exception the client's onConnect() raised
+        from vf import c05_engine as E
+
+        c["onc_raise"] = rng.choice(list(E.REASONS)[1:])
+        c["fbd"] = rng.random() < 0.15
     if rng.random() < 0.1:
         c["start"] = "connecting"
         c["oht"] = rng.choice([0, 1, 5])
@@ -296,6 +360,13 @@ def run_shard(params, R):
             _judge_case(case, R, fw, nvx, 1999)
             R.count("async_exhaustive_cases")
         idx += 1
+    # ---- close reasons produced by the library itself
+    idx = 0
+    for case in libreason_cases():
+        if idx % parts == part:
+            _judge_case(case, R, fw, nvx, 199)
+            R.count("libreason_cases")
+        idx += 1
     # ---- random part
     n_rand = {"quick": 5000, "thorough": 22000, "pure": 30000}[tier]
     rng = random.Random((seed * 1000003 + part * 7919 + (17 if fw == "aio" else 0) + (1 if nvx else 0) * 31) & 0xFFFFFFFF)
@@ -327,7 +398,9 @@ MANIFEST_ENTRY = {
              "CONNECTING with an asynchronous application decision (server onConnect() / client onConnecting() returning a pending "
              "Deferred/Future) that is accepted, refused or failed at every point relative to peer TCP loss, the opening-handshake "
              "timeout (0/1/2 s), buffered peer octets, delivery of the own drop and local send/close calls - including after the "
-             "transport is gone. Online monitors assert: state "
+             "transport is gone. In every family the application may act from INSIDE onClose (send APIs, sendClose, raising) and "
+             "the library itself produces close reasons of every length class (exception text of a raising client onConnect(), "
+             "decompression failure under permessage-deflate). Online monitors assert: state "
              "only moves forward; onClose exactly once and only after connection-lost; no callback or transport write after it; "
              "at most one close frame, no data frame after it, only wire-legal codes and <=123-byte valid UTF-8 reasons (octets "
              "re-parsed by an independent RFC 6455 codec); wasClean=True only when close frames travelled both ways and then with "
